@@ -169,7 +169,7 @@ def run_clock_group(case):
     nexec = nstates = 0
     scripts = [tuple(only)] if only is not None else itertools.product(SYMS, repeat=depth)
     for script in scripts:
-        r = run_clock_one(t0, delta, minf, maxf, it, stop_at, script)
+        r = run_clock_one(t0, delta, minf, maxf, it, stop_at, script, verbose=case.get('verbose'))
         nexec += 1
         nstates += r['steps']
         outcomes.add(r['outcome'])
@@ -183,20 +183,25 @@ def run_clock_group(case):
             'info': {'executions': nexec, 'outcomes': sorted(outcomes)[:6]}}
 
 
-def run_clock_one(t0, delta, minf, maxf, it, stop_at, script):
+def run_clock_one(t0, delta, minf, maxf, it, stop_at, script, verbose=None):
     tf = t0 + delta
     guard = len(script) + int(math.ceil(1.0 / maxf)) + 3
     rec = []
     m = ScriptModel(t0, script, stop_at, guard)
     m._minf, m._maxf = minf, maxf
     tag = 'clock t0=%r d=%r f=(%g,%g) it=%s stop=%s script=%s' % (t0, delta, minf, maxf, it, stop_at, ','.join(script))
+    kw = {}
+    if verbose:
+        # status printing (every vIt-th iteration and at the end) must not change the contract; the text goes to the redirected stdout
+        kw = {'verbose': True, 'vIt': int(verbose)}
+        tag += ' verbose vIt=%d' % verbose
     viol = []
 
     def bad(kind, msg):
-        viol.append({'sig': 'clock/%s/f=(%g,%g)/it=%s/stop=%s/%s' % (kind, minf, maxf, it, stop_at, ','.join(script)),
+        viol.append({'sig': 'clock/%s/f=(%g,%g)/it=%s/stop=%s/%s%s' % (kind, minf, maxf, it, stop_at, ','.join(script), '/verbose' if verbose else ''),
                      'msg': tag + ': ' + msg})
     try:
-        m.solve(delta, solverType=_iterator(it, rec), minDtFrac=minf, maxDtFrac=maxf)
+        m.solve(delta, solverType=_iterator(it, rec), minDtFrac=minf, maxDtFrac=maxf, **kw)
     except Horizon:
         bad('nontermination', 'more than %d accepted steps; times=%r' % (guard, m.times[:8]))
         return {'viol': viol, 'steps': len(m.times), 'outcome': 'horizon'}
@@ -684,6 +689,9 @@ def run(ctx):
                             if s is not None and d == 0 and s > 1:
                                 continue
                             cases.append({'t0': t0, 'delta': delta, 'fracs': list(fr), 'it': it, 'stop': s, 'depth': d})
+                            if d <= 2 and t0 in (0.1, 1e6):
+                                cases.append({'t0': t0, 'delta': delta, 'fracs': list(fr), 'it': it, 'stop': s, 'depth': d,
+                                              'verbose': 1 if s is None else 2})
     ctx.product_run('clock', 'checks.c05:run_clock_group', cases, chunksize=1)
 
     # layouts
